@@ -125,7 +125,8 @@ PROPS = {
         'nontrivial': _merge(HIST_NT, {'sched': lambda f: ',' in f.get('schedule', ''), 'fault': lambda f: f.get('fkind', '').startswith('idp'), 'faultdry': lambda f: False}),
         'rule': SCHED_RULE + " fault driver (as C11): provider faults at the grant, incl. an answer LOST in transit after the provider processed the grant - the number of times the refresh token is sent is counted.",
         'level_text': "Proof: inductive invariant (7 fields) over the small-step model for any number of processes and any schedule: mutual exclusion between lock and unlock; under the lock the re-read token is the provider's current one; "
-                      "hence every presentation is a grant, the presented generations are strictly increasing - no refresh token is presented twice - and the stored pair is the provider's current pair whenever nobody is in the critical section. "
+                      "hence every presentation is a grant, the presented generations are strictly increasing - no refresh token is presented twice - and the stored pair is the provider's current pair whenever nobody is in the critical section; at most one grant per schedule (one_refresh) and, by a range invariant over every token generation "
+                      "in the state, every proxied request hands the upstream the previous or the new token and nothing else (served_previous_or_new), new logins on the same key included. "
                       "Within the lock lease and crash-free (the property's proviso). Tied step by step on Redis; on the in-memory store the provider log and the statuses are checked by the Spec (the provider call is its only scheduling point)." + MANAGER_TIE,
         'level_note': "Trusted: Lean kernel; redislock obtain/release = SET NX PX / delete-if-token (modelled as one step each, tied by the executor); lease not expiring while held (H-LEASE); the cooldown outlasts a schedule (schedules run in milliseconds).",
         'technique': 'Lean 4 inductive invariant (grind) over an interleaving model + deterministic schedule executor; provider-side presentation log as observation',
